@@ -116,10 +116,12 @@ def analyse(text, limit, full=True):
     last_line = None
     passwords = []
 
-    def wdinv(i):
-        return inv.setdefault(i, None) or next(k for k, v in wd.items() if v == i)
-
     inv = {}
+
+    def wdinv(i):
+        if i not in inv:
+            inv.update((v, k) for k, v in wd.items())
+        return inv[i]
 
     def snap(label):
         nonlocal last_line, wf_broken
@@ -169,6 +171,32 @@ def analyse(text, limit, full=True):
         if why:
             d = {c[0]: c for c in s_last.cells}
             res["py_contract"] = why
+    # ---- a pass raised: the production path is TreeCleaner.clean([...]), whose catch-all swallows the exception and
+    # goes on with the next pass - the tree it hands on must still be proper.  Same passes, fresh tree, through clean().
+    if not stop and any(p[2] is not None for p in res["passes"]):
+        wd3 = {}
+        tree3, e, dt = limited(lambda: parse(text), max(limit, 20))
+        if e is None:
+            tc3 = TreeCleaner(tree3, save_reports=False)
+            res["snaps_ca"] = []
+            last3 = None
+            broken3 = False
+            for k, name in enumerate(tc3.cleaner_methods):
+                _r, e, dt = limited(lambda: tc3.clean([name]), limit)
+                if e is not None:
+                    break
+                s3 = S.Snap(tree3, wd3)
+                line3 = s3.line()
+                if line3 != last3:
+                    lab3 = "catchall:%d:%s" % (k, name)
+                    if s3.cycle:
+                        res.setdefault("cycle_ca", []).append(lab3)
+                    res["snaps_ca"].append([lab3, line3, S.digest(s3.root, s3.cells, s3.cycle)])
+                    if not broken3 and (s3.cycle or S.py_wf(s3.root, s3.cells)):
+                        broken3 = True
+                        if not wf_broken:
+                            keys.append(["wf", lab3])
+                last3 = line3
     # ---- the catch-all path, fresh tree
     if full and not stop:
         wd2 = {}
@@ -275,6 +303,10 @@ def ddmin(text, key, limit, max_evals=250):
     elif len(text) <= 400:
         chars = reduce(list(text), "".join)
         text = "".join(chars)
+    else:
+        import re
+        toks = reduce([t for t in re.split(r"(<[^<>]*>|\s+)", text) if t], "".join)
+        text = "".join(toks)
     return text, evals[0], True
 
 
